@@ -15,8 +15,8 @@ STORY_POOL = ['A', 'AB', 'C', 'D', 'E', 'F', 'G']
 ITEM_POOL = ['a', 'ab', 'c', 'd', 'e', 'f', 'g']
 RO_ID = 'RO1'
 # IDs that look like numbers, carry spaces, markup-significant and non-ASCII characters, differ only in case
-EXOTIC_IDS = ['10', '9', 'A', 'a', 'A ', ' A', 'a b', 'x&y<z>', 'Ä\U0001F600', 'q\'"]=[']
-EXOTIC_QUICK = ['10', 'A', 'a', 'A ', 'x&y< z>\'"]']
+EXOTIC_IDS = ['10', '9', 'A', 'a', 'A ', ' A', 'a b', 'x&y<z>', 'Ä\U0001F600', 'q\'"]=[', '100% %s {0} \\1']
+EXOTIC_QUICK = ['10', 'A', 'a', 'A ', 'x&y< z>\'"]', '100% %s {0} \\1']
 
 SPECIAL = 'x&y<z>"q\' é\U0001F600é'     # markup-significant, non-BMP, combining
 
@@ -137,6 +137,8 @@ P_KINDS = {
     'angle-multiline': '&lt;cue\n two&gt;',
     # Unicode white space (White_Space=yes: NO-BREAK SPACE, IDEOGRAPHIC SPACE) is white space: a paragraph made of it is
     # whitespace-only, and "stripped" removes it from the edges
+    # text that is not in Unicode normal form C (combining mark, singletons): it is the text, as it stands
+    'decomposed': 'cafe\u0301 \u212b \u2126',
     'nbsp-only': '\u00a0\u3000',
     'nbsp-edged': '\u00a0Tonight at ten\u3000',
 }
